@@ -178,7 +178,7 @@ func poolScenarios(thorough bool) []pcfg {
 			{name: "two-ports-and-back", urls: []string{"http://h:81/a", "http://h:82/b", "http://h:81/c"}, callers: 1},
 			{name: "default-port-and-other-port", urls: []string{"http://h/a", "http://h:8080/b"}, callers: 1},
 			{name: "two-hosts", urls: []string{"http://h1:80/a", "http://h2:80/b"}, callers: 1},
-			{name: "two-ports-concurrent", urls: []string{"http://h:81/a", "http://h:82/b", "http://h:82/c"}, callers: 2},
+			{name: "two-ports-concurrent", urls: []string{"http://h:81/a", "http://h:82/b"}, callers: 2},
 			{name: "two-ports-one-slot", urls: []string{"http://h:81/a", "http://h:82/b"}, callers: 1, maxPer: 1},
 		} {
 			c.mode = m
